@@ -26,11 +26,27 @@ type Op struct {
 
 // Pools of names; everything lives in mount point "mp" (the broker always prefixes).
 var (
-	Filters = []string{"mp/a", "mp/a/b", "mp/+", "mp/#", "mp/a/+", "mp/b", "mp/a/#", "mp/+/b"}
+	Filters = []string{"mp/a", "mp/a/b", "mp/+", "mp/#", "mp/a/+", "mp/b", "mp/a/#", "mp/+/b", "mp/mp/a"}
 	Topics  = []string{"mp/a", "mp/a/b", "mp/b", "mp/a/b/c", "mp/a/c"}
 )
 
-func SessID(i int) string   { return fmt.Sprintf("sess-%d", i) }
+// SessID: session ids are opaque strings chosen by the authentication back end. Indices 90
+// and 91 name two ids of which one is a '/'-prefix of the other ("u", "u/mp"): together with
+// the filters "mp/mp/a" and "mp/a" they make two different (session, filter) pairs whose naive
+// concatenations coincide ("u"+"/"+"mp/mp/a" == "u/mp"+"/"+"mp/a"); 92/93 do the same with '|'.
+func SessID(i int) string {
+	switch i {
+	case 90:
+		return "u"
+	case 91:
+		return "u/mp"
+	case 92:
+		return "v"
+	case 93:
+		return "v|mp"
+	}
+	return fmt.Sprintf("sess-%d", i)
+}
 func ClientID(i int) string { return fmt.Sprintf("client-%d", i%3) }
 
 func will(op Op) *packet.Publish {
@@ -184,6 +200,9 @@ func GenOp(t *rapid.T, nSess, nFilters, nTopics int, peers []uint64, bulk bool) 
 	case 1:
 		return Op{Op: "sess.delete", Sess: rapid.IntRange(0, nSess-1).Draw(t, "sess")}
 	case 2, 3, 4:
+		if rapid.IntRange(0, 7).Draw(t, "aliasing") == 0 {
+			return Op{Op: rapid.SampledFrom([]string{"sub.create", "sub.create", "sub.delete"}).Draw(t, "aliasOp"), Sess: rapid.SampledFrom([]int{90, 91}).Draw(t, "aliasSess"), Filter: rapid.SampledFrom([]int{8, 0}).Draw(t, "aliasFilter"), QoS: int32(rapid.IntRange(0, 2).Draw(t, "qos"))}
+		}
 		return Op{Op: "sub.create", Sess: rapid.IntRange(0, nSess-1).Draw(t, "sess"), Filter: rapid.IntRange(0, nFilters-1).Draw(t, "filter"), QoS: int32(rapid.IntRange(0, 2).Draw(t, "qos"))}
 	case 5:
 		return Op{Op: "sub.delete", Sess: rapid.IntRange(0, nSess-1).Draw(t, "sess"), Filter: rapid.IntRange(0, nFilters-1).Draw(t, "filter")}
